@@ -225,11 +225,14 @@ static long nunique, nruns, out_id;
 static struct vs_explore *cur_e;
 
 static bool crashed;
+static const uint8_t *fin_sched;        /* schedule of the execution whose epilogue is running */
+static int fin_len;
 static bool finish(void *ctx, const uint8_t *sched, int len, bool stuck);
 static void crash_dump(int sig)
 {
     int len;
     const uint8_t *s = vs_cur_sched(&len);
+    if (fin_sched != NULL) { s = fin_sched; len = fin_len; }
     crashed = true;
     finish(NULL, s, len, false);
     fprintf(stderr, "{\"crash_signal\":%d,\"runs\":%ld,\"unique\":%ld,\"complete\":false}\n", sig, nruns, nunique);
@@ -239,10 +242,14 @@ static bool finish(void *ctx, const uint8_t *sched, int len, bool stuck)
 {
     nruns++;
     if (areas_mode && !crashed && !stuck && !cur_e->overrun) {
+        fin_sched = sched;
+        fin_len = len;
         /* sequential epilogue: structures recycled from the pools must behave like new ones */
         areas_op(7, 'A'); areas_op(7, 'U'); areas_op(7, 'R'); areas_op(7, 'R');
         for (int t = 0; t < nprog; t++)
             while (nbufs[t] > 0) areas_op(t, 'R');
+        teardown();             /* the manager goes with its execution: a crash in its clean-up belongs here */
+        fin_sched = NULL;
     }
     if (crashed) log_ev('C', tid());
     uint64_t h = 1469598103934665603ULL;
